@@ -2,7 +2,8 @@ import Log4rsModel.Rolling.BufWriter
 /-
 `FileAppender` (`src/append/file.rs`).
 
-  build : create_dir_all(parent); OpenOptions.write(true).append(a).truncate(!a).create(true).open
+  build : create_dir_all(parent); OpenOptions.write(true).append(true).create(true).open;
+          if !a { file.set_len(0) }                 -- (before the O_APPEND repair: .append(a).truncate(!a))
           ⇒ Mutex<SimpleWriter<BufWriter::with_capacity(1024, file)>>
   append: let mut file = self.file.lock();          -- guard lives to the end of the function
           let mut buf = Vec::new();
@@ -78,29 +79,52 @@ def trace (m : OpenMode) (w : BufFile) : List Op → List Bytes
 end FileAppender
 
 
-/-! ### several handles on one file, foreign writers, failing encoders
+/-! ### several handles on one file, foreign writers, external truncation, failing encoders
 
-`FileAppender::build` opens with `append(true)` in append mode: `O_APPEND`, i.e. *every* `write`
-of *every* such handle goes to the current end of the file (the kernel's guarantee — modelled, not
-verified). So with a second `FileAppender` on the same path, or a foreign process doing `>>`, the
-file is the plain concatenation of all writes in the order they happen. (In truncate mode the
-handle has its own offset; histories with more than one handle are not modelled there.)
+A descriptor opened with `O_APPEND` (`OpenOptions::append(true)`) puts *every* `write` at the
+current end of the file (the kernel's guarantee — modelled, not verified). A descriptor opened
+without it has a private offset: every `write` goes to that offset, over whatever is there, and
+advances it; beyond the end of the file the gap reads as NUL bytes (`writeAt`).
 
-`append` with a failing encoder: the record is encoded into memory first, so `?` leaves `append`
-before anything reaches the BufWriter — nothing is written, the appender stays usable. Before the
-`fix:` commit 9f38f0b the encoder wrote into the BufWriter directly and the slices written before
-the error stayed there (former finding `C04/seq-encoder-error-torn`); `applyOp` with
-`tearing := true` is that historical behaviour, kept for the `…_unfixed` witness. -/
+`FileAppender::build`:
+* append mode: `append(true)` — `O_APPEND`;
+* truncate mode, since the `fix:` commit "a file appender in truncate mode also writes at the end of
+  the file (O_APPEND)": `append(true)` and an explicit `set_len(0)` right after opening — `O_APPEND`
+  as well (`truncateUsesAppendFlag := true`, the default);
+* truncate mode before that commit: `.append(false).truncate(true)` — NO `O_APPEND`, private offset
+  starting at 0 (`truncateUsesAppendFlag := false`, former finding `C04/seq-truncate-private-offset`):
+  after a second appender on the path, a foreign `>>` append or an external truncation
+  (`logrotate copytruncate`, `: > app.log`) the next acknowledged record lands at the stale offset —
+  acknowledged records are overwritten or a NUL hole appears.
 
-/-- one shared file, one pending buffer per live appender -/
+`append` with a failing (or panicking) encoder: the record is encoded into memory first, so `?` (or
+the unwinding) leaves `append` before anything reaches the BufWriter — nothing is written, the
+appender stays usable. Before the `fix:` commit 9f38f0b the encoder wrote into the BufWriter directly
+and the slices written before the error stayed there (former finding `C04/seq-encoder-error-torn`);
+`applyOp` with `tearing := true` is that historical behaviour, kept for the `…_unfixed` witness. -/
+
+/-- a `write` of `data` through a descriptor WITHOUT `O_APPEND` whose offset is `off`: the bytes go
+to that offset, over whatever is there; a gap beyond the end reads as NUL; an empty `data` is no
+`write` call at all (`write_all`/`flush_buf` do not call `write` for nothing) -/
+def writeAt (file : Bytes) (off : Nat) (data : Bytes) : Bytes :=
+  if data.isEmpty then file
+  else (file ++ List.replicate (off - file.length) 0).take off ++ data ++ file.drop (off + data.length)
+
+/-- which `FileAppender::build` the model follows by default: `true` = every descriptor has
+`O_APPEND` (the crate since the repair), `false` = truncate mode opens without it (before) -/
+def truncateUsesAppendFlag : Bool := true
+
+/-- one shared file; per live appender its pending buffer and the placement of its descriptor
+(`none`: `O_APPEND`; `some o`: opened without it, private offset `o`) -/
 structure Handles where
   file : Bytes
   bufs : List Bytes
+  offs : List (Option Nat)
   deriving Repr, DecidableEq
 
 inductive MOp where
   /-- appender `k` handles a record; `failAfter = some n`: the encoder writes the first `n` slices
-  and then returns `Err` -/
+  and then returns `Err` (or panics, the unwinding being caught by the caller) -/
   | append (k : Nat) (r : Rec) (failAfter : Option Nat)
   /-- another process appends `x` through its own `O_APPEND` handle -/
   | foreign (x : Bytes)
@@ -108,26 +132,53 @@ inductive MOp where
   | build
   /-- appender `k` is dropped (its `BufWriter` flushes) and a new one is built in its place -/
   | restart (k : Nat)
+  /-- another process truncates the file to length 0 (`logrotate copytruncate`, `: > app.log`) -/
+  | truncate
   deriving Repr
 
 namespace Handles
 
 def view (s : Handles) (k : Nat) : BufFile := { disk := s.file, buf := s.bufs[k]?.getD [] }
 
-def store (s : Handles) (k : Nat) (w : BufFile) : Handles := { file := w.disk, bufs := s.bufs.set k w.buf }
+def store (s : Handles) (k : Nat) (w : BufFile) : Handles := { s with file := w.disk, bufs := s.bufs.set k w.buf }
 
-def init (m : OpenMode) (pre : Option Bytes) : Handles := { file := openContent m pre, bufs := [[]] }
+/-- placement of appender `k`'s descriptor -/
+def off (s : Handles) (k : Nat) : Option Nat := (s.offs[k]?).join
 
-def applyOp (m : OpenMode) (s : Handles) (op : MOp) (tearing : Bool := false) : Handles :=
+/-- placement of a descriptor `FileAppender::build` has just opened: `O_APPEND` in append mode and,
+with `truncateUsesAppendFlag`, in truncate mode too; otherwise a private offset starting at 0 (the
+file has just been truncated) -/
+def newOff (m : OpenMode) (truncateUsesAppendFlag : Bool) : Option Nat :=
+  match m with
+  | .append => none
+  | .truncate => if truncateUsesAppendFlag then none else some 0
+
+def init (m : OpenMode) (pre : Option Bytes) (truncateUsesAppendFlag : Bool := Rolling.truncateUsesAppendFlag) : Handles :=
+  { file := openContent m pre, bufs := [[]], offs := [newOff m truncateUsesAppendFlag] }
+
+/-- appender `k` runs `f` on its `BufWriter`; what `f` hands to the descriptor is placed at the end
+of the file (`O_APPEND`) or at the descriptor's private offset, which then advances -/
+def commit (s : Handles) (k : Nat) (f : BufFile → BufFile) : Handles :=
+  match s.off k with
+  | none => s.store k (f (s.view k))
+  | some o =>
+    let w := f { disk := [], buf := s.bufs[k]?.getD [] }
+    { file := writeAt s.file o w.disk, bufs := s.bufs.set k w.buf, offs := s.offs.set k (some (o + w.disk.length)) }
+
+def applyOp (m : OpenMode) (s : Handles) (op : MOp) (tearing : Bool := false)
+    (truncateUsesAppendFlag : Bool := Rolling.truncateUsesAppendFlag) : Handles :=
   match op with
-  | .append k r none => if k < s.bufs.length then s.store k (FileAppender.append (s.view k) r) else s
+  | .append k r none => if k < s.bufs.length then s.commit k (fun w => FileAppender.append w r) else s
   | .append k r (some n) =>
-    if tearing ∧ k < s.bufs.length then s.store k (FileAppender.encodeUnfixed (s.view k) (r.take n)) else s
+    if tearing ∧ k < s.bufs.length then s.commit k (fun w => FileAppender.encodeUnfixed w (r.take n)) else s
   | .foreign x => { s with file := s.file ++ x }
-  | .build => { file := openContent m (some s.file), bufs := s.bufs ++ [[]] }
+  | .truncate => { s with file := [] }
+  | .build =>
+    { file := openContent m (some s.file), bufs := s.bufs ++ [[]], offs := s.offs ++ [newOff m truncateUsesAppendFlag] }
   | .restart k =>
     if k < s.bufs.length then
-      { file := openContent m (some (s.view k).flush.disk), bufs := s.bufs.set k [] }
+      let s' := s.commit k BufFile.flush
+      { file := openContent m (some s'.file), bufs := s'.bufs.set k [], offs := s'.offs.set k (newOff m truncateUsesAppendFlag) }
     else s
 
 /-- what any reader sees after every single operation -/
@@ -140,6 +191,12 @@ def traceUnfixed (m : OpenMode) (s : Handles) : List MOp → List Bytes
   | [] => []
   | op :: ops => (applyOp m s op true).file :: traceUnfixed m (applyOp m s op true) ops
 
+/-- the same for a given variant of `FileAppender::build` (`truncateUsesAppendFlag := false`: the code
+before the O_APPEND repair) -/
+def traceV (flag : Bool) (m : OpenMode) (s : Handles) : List MOp → List Bytes
+  | [] => []
+  | op :: ops => (applyOp m s op false flag).file :: traceV flag m (applyOp m s op false flag) ops
+
 end Handles
 
 /-- appender indices of a history refer to appenders that exist (`n` = how many exist) -/
@@ -147,6 +204,7 @@ def validOps : Nat → List MOp → Bool
   | _, [] => true
   | n, .append k _ _ :: ops => decide (k < n) && validOps n ops
   | n, .foreign _ :: ops => validOps n ops
+  | n, .truncate :: ops => validOps n ops
   | n, .build :: ops => validOps (n + 1) ops
   | n, .restart k :: ops => decide (k < n) && validOps n ops
 
@@ -160,6 +218,7 @@ def MOp.torn : MOp → Bool
 def MOp.multi : MOp → Bool
   | .append k _ _ => k != 0
   | .foreign _ => true
+  | .truncate => true
   | .build => true
   | .restart k => k != 0
 
